@@ -565,5 +565,7 @@ func c02Huge(w *mon.W, _ int) {
 	w.Eval(int64(2*len(P) + 2))
 	w.Bucket("bitmap=2^31-64-bits")
 	w.Distinct(gen.Hash64(0x2b32, uint64(len(P))))
-	w.Sample(func() interface{} { return mon.D{"nwords": nw, "ones": len(P), "what": "indexes built by the library, every i"} })
+	w.Sample(func() interface{} {
+		return mon.D{"nwords": nw, "ones": len(P), "what": "indexes built by the library, every i"}
+	})
 }
